@@ -70,6 +70,16 @@ func (t Templates) ServeHTTP(w http.ResponseWriter, r *http.Request) (int, error
 		// pass request up the chain to let another middleware provide us the template
 		code, err := t.Next.ServeHTTP(rb, r)
 		if !rb.Buffered() || code >= 300 || err != nil {
+			if rb.Buffered() && rb.Written() && code < 300 {
+				// the handler did write a response (into our buffer) and
+				// only then reported an error: it is not a template to
+				// execute, but it must still reach the client as written
+				rb.CopyHeader()
+				rb.StatusCodeWriter(w).WriteHeader(http.StatusOK)
+				if _, werr := w.Write(rb.Buffer.Bytes()); werr != nil {
+					return code, werr
+				}
+			}
 			return code, err
 		}
 
